@@ -5,7 +5,8 @@
 //! workload shape) or from the simulator (Miri: entropy, thread schedule,
 //! memory model, clock, addresses — all derived from `-Zmiri-seed`).
 //!
-//! argv: <K> <D> <sizes n1,n2,..> <lut|static|both> <order-seed> <yield 0|1> <main-draws 0|1> [battery 0|1] [seq|cyc]
+//! argv: <K> <D> <sizes n1,n2,..> <lut|static|both> <order-seed> <yield 0|1> <main-draws 0|1> [battery 0|1] [seq|cyc] [ops-seed]
+//!   ops-seed != 0: after every draw the thread makes one other public API call (see ops.rs)
 //!
 //! mode `seq` (default): every thread walks the size list in its own permutation and performs D
 //!   draws per size (and per type) back to back.
@@ -30,6 +31,7 @@ use volute::{
 };
 
 mod battery;
+mod ops;
 
 /// Global event sequence number.  Relaxed RMWs give a total order of events
 /// without creating happens-before edges between threads, so the stamps
@@ -75,6 +77,7 @@ struct Cfg {
     main_draws: bool,
     battery: bool,
     cycle: Vec<(u8, usize)>, // non-empty in mode `cyc`
+    ops: u64,
 }
 
 fn splitmix(x: &mut u64) -> u64 {
@@ -149,6 +152,26 @@ fn one_draw(typ: u8, n: usize, slot: u32, rep: u32) -> Rec {
     }
 }
 
+fn neighbour_op(cfg: &Cfg, st: &mut u64, r: &Rec, out: &mut Vec<Ev>) {
+    if cfg.ops == 0 {
+        return;
+    }
+    let sel = if cfg.ops & 1 == 1 {
+        let s = splitmix(st);
+        if (s >> 60) & 3 != 0 {
+            return; // mix mode: on average one neighbour operation per four draws
+        }
+        s
+    } else {
+        ((cfg.ops >> 1) % ops::NOPS) | (((cfg.ops >> 1) / ops::NOPS) << 8) // fixed mode: the same call after every draw
+    };
+    let (n, blocks) = (r.n as usize, r.blocks.clone());
+    // a panic in another API function is not C19's business: swallow it, keep the thread alive
+    if let Ok((id, Some(dg))) = std::panic::catch_unwind(move || ops::run(sel, n, &blocks)) {
+        out.push(Ev::Bat(0, id, dg));
+    }
+}
+
 fn worker(t: usize, cfg: &Cfg) -> Vec<Ev> {
     // per-thread permutation of the size list: a pure function of argv
     let mut st = cfg.order ^ ((t as u64 + 1).wrapping_mul(0xD1B54A32D192ED03));
@@ -158,6 +181,7 @@ fn worker(t: usize, cfg: &Cfg) -> Vec<Ev> {
         sizes.swap(i, j);
     }
     let mut out = Vec::with_capacity(2 * cfg.d * (sizes.len() + cfg.cycle.len()) + 64);
+    let mut ost = cfg.ops ^ ((t as u64 + 7).wrapping_mul(0xA24BAED4963EE407));
     let mut round = 0u32;
     if !cfg.cycle.is_empty() {
         let p = cfg.cycle.len();
@@ -166,7 +190,9 @@ fn worker(t: usize, cfg: &Cfg) -> Vec<Ev> {
             for i in 0..p {
                 let slot = (i + rot) % p;
                 let (typ, n) = cfg.cycle[slot];
-                out.push(Ev::Draw(one_draw(typ, n, slot as u32, rep as u32)));
+                let r = one_draw(typ, n, slot as u32, rep as u32);
+                neighbour_op(cfg, &mut ost, &r, &mut out);
+                out.push(Ev::Draw(r));
             }
             if cfg.yld {
                 thread::yield_now();
@@ -181,10 +207,14 @@ fn worker(t: usize, cfg: &Cfg) -> Vec<Ev> {
         let pos = cfg.sizes.iter().position(|&x| x == n).unwrap_or(0) as u32;
         for d in 0..cfg.d {
             if cfg.lut {
-                out.push(Ev::Draw(one_draw(b'L', n, 2 * pos, d as u32)));
+                let r = one_draw(b'L', n, 2 * pos, d as u32);
+                neighbour_op(cfg, &mut ost, &r, &mut out);
+                out.push(Ev::Draw(r));
             }
             if cfg.stat {
-                out.push(Ev::Draw(one_draw(b'S', n, 2 * pos + 1, d as u32)));
+                let r = one_draw(b'S', n, 2 * pos + 1, d as u32);
+                neighbour_op(cfg, &mut ost, &r, &mut out);
+                out.push(Ev::Draw(r));
             }
             if cfg.yld {
                 thread::yield_now();
@@ -303,6 +333,7 @@ fn main() {
         d: p(&a[2]) as usize,
         sizes: if cyc { cycle.iter().map(|c| c.1).collect() } else { a[3].split(',').map(|s| p(s) as usize).collect() },
         cycle,
+        ops: if a.len() > 10 { p(&a[10]) } else { 0 },
         lut: a[4] == "lut" || a[4] == "both",
         stat: a[4] == "static" || a[4] == "both",
         order: p(&a[5]),
